@@ -247,7 +247,8 @@ Definition XO (g : ghost) (c : N) : N -> Prop := fun y => y = c \/ In c (kids g 
 Definition lastchild (g : ghost) (c : N) : Prop := exists par l1, kids g par = l1 ++ [c].
 
 Definition shape (af i : N) (c : N) (s' : pstate) (g g' : ghost) : Prop :=
-  exists objs, kids g' c = kids g c ++ objs /\ Forall2 (fun ty a => akind ty s' g' a) (otys af i) objs.
+  exists objs, kids g' c = kids g c ++ objs /\ Forall2 (fun ty a => akind ty s' g' a) (otys af i) objs /\
+    Forall (fun a => ~ glive g a) objs.
 
 Definition okr (res : pres) : Prop := res = ROk \/ res = RShort.
 
@@ -528,7 +529,7 @@ Proof.
 Qed.
 
 Lemma shape_nil af i c s g : argCount af <= i -> shape af i c s g g.
-Proof. intros H. exists []. rewrite app_nil_r, (otys_done _ _ H). split; [reflexivity|constructor]. Qed.
+Proof. intros H. exists []. rewrite app_nil_r, (otys_done _ _ H). split; [reflexivity|split; constructor]. Qed.
 
 Lemma tstep_args fuel : T_arg fuel -> T_args fuel -> T_args (S fuel).
 Proof.
@@ -631,12 +632,17 @@ Proof.
         assert (Hly : glive g2 y) by (pose proof (fi_scopes _ _ H2) as Fs; rewrite Forall_forall in Fs; apply Fs; exact A).
         destruct (fw_keep _ _ _ _ _ _ F6 y o Hly Ho) as (o' & Ho' & (E1' & _) & _). exists o'. split; [exact Ho'|congruence]. }
       split; [congruence|].
-      intros Hr Hsim Hdf. destruct (F9 Hr) as (objs' & Hk' & Hf2).
+      intros Hr Hsim Hdf. destruct (F9 Hr) as (objs' & Hk' & Hf2 & Hn2).
       { intros k Hk1 Hk2. apply Hsim; lia. }
       { exact Hdf. }
       assert (Hsty : simple_ty argTy) by (apply Hsim; lia).
       unfold shape. rewrite (otys_step af argIndex Ele). fold argTy.
       exists (alist ++ objs'). split; [rewrite Hk', Hkc2, (Hkc1 Hnfl), app_assoc; reflexivity|].
+      split.
+      2:{ apply Forall_app. split.
+          - unfold alist. destruct a as [obj|]; [|constructor]. constructor; [|constructor].
+            destruct (Hak2 obj eq_refl (or_introl eq_refl)) as (_ & _ & K3). exact K3.
+          - eapply Forall_impl; [|exact Hn2]. intros a0 Hn0 Hl0. apply Hn0. apply (ge_live _ _ G2). exact Hl0. }
       apply Forall2_app; [|exact Hf2].
       destruct (N.eqb_spec argTy aml_pArgTypePkgLen) as [Epl|Epl].
       * unfold alist. rewrite (Hpn Epl). constructor.
@@ -665,8 +671,10 @@ Proof.
       rewrite (otys_done af (argIndex + 1) Hlast), app_nil_r.
       destruct a as [obj|]; [|exfalso; apply (Htl E (or_intror eq_refl)); reflexivity].
       exists [obj]. split; [rewrite Hkc2, (Hkc1 Hnfl); reflexivity|].
+      destruct (Hak2 obj eq_refl (or_intror eq_refl)) as (K1 & _ & K3).
+      split; [|constructor; [exact K3|constructor]].
       rewrite E. change (aml_pArgTypeTermList =? aml_pArgTypePkgLen) with false. cbv iota.
-      constructor; [|constructor]. destruct (Hak2 obj eq_refl (or_intror eq_refl)) as (K1 & _). rewrite <- E. exact K1.
+      constructor; [|constructor]. rewrite <- E. exact K1.
 Qed.
 
 Lemma objargs_num2 (P : Prop) curObj k s g :
@@ -862,6 +870,19 @@ Proof.
     rewrite deref_get in Ho. rewrite Hn in Ho. discriminate.
 Qed.
 
+Lemma newObject_name_old (t t' : T) opc th p o0 : newObject t opc th = Ok (t', p) -> tget t p = Some o0 ->
+  exists po, tget t' p = Some po /\ o_name po = o_name o0.
+Proof.
+  unfold newObject. intros H Hn. destruct (t_free t =? InvalidIndex) eqn:Ef; cbn [bind] in H.
+  - apply bind_ok in H. destruct H as (info & _ & H). apply bind_ok in H. destruct H as (t2 & Hw & H). inversion H; subst t2 p. clear H.
+    exfalso. pose proof (get_lt _ _ _ Hn) as Hlt. lia.
+  - apply bind_ok in H. destruct H as ([t1 p1] & Htp & H). apply bind_ok in Htp. destruct Htp as (o & Ho & Htp). inversion Htp; subst t1 p1. clear Htp.
+    apply bind_ok in H. destruct H as (info & _ & H). apply bind_ok in H. destruct H as (t2 & Hw & H). inversion H; subst t2 p. clear H.
+    rewrite deref_get in Ho. rewrite Hn in Ho. inversion Ho; subst o.
+    destruct (wr_inv _ _ _ _ Hw) as (-> & o1 & Ho1). rewrite get_tset, N.eqb_refl, Ho1. cbn [option_map]. eexists. split; [reflexivity|].
+    assert (o1 = o0) by (unfold TreeSpec.get in *; cbn [t_pool] in Ho1; congruence). subst o1. reflexivity.
+Qed.
+
 Lemma new_step3 P opc s g (Q : N -> pstate -> Prop) :
   FI s g -> newok opc -> lp s + 1 < InvalidIndex ->
   (forall p t' g' po,
@@ -873,26 +894,30 @@ Lemma new_step3 P opc s g (Q : N -> pstate -> Prop) :
      (forall y, kids g' y = kids g y) ->
      (forall x, glive g' x -> glive g x \/ x = p) ->
      (tget (p_tree s) p = None -> o_name po = name_zero) ->
+     (forall o0, tget (p_tree s) p = Some o0 -> o_name po = o_name o0) ->
      Q p (with_tree s t')) ->
   wp P (newObj opc) s Q.
 Proof.
   intros H Hnk Hroom K. apply wp_run2. eapply new_step2; [exact H|exact Hnk|exact Hroom|].
-  intros p t' g' po A1 A2 A3 A4 A5 A6 A7 A8 A9 A10 A11 A12 A13 A14 Erun. apply (K p t' g' po); auto.
-  intros Hn. unfold newObj in Erun. destruct (newObject (p_tree s) opc (p_handle s)) as [[t2 p2]| |] eqn:E; try discriminate.
+  intros p t' g' po A1 A2 A3 A4 A5 A6 A7 A8 A9 A10 A11 A12 A13 A14 Erun.
+  unfold newObj in Erun. destruct (newObject (p_tree s) opc (p_handle s)) as [[t2 p2]| |] eqn:E; try discriminate.
   inversion Erun; subst p2. assert (t2 = t') by (destruct s; cbn in *; congruence). subst t2.
-  destruct (newObject_name _ _ _ _ _ E Hn) as (po' & Hpo' & Hnm). assert (po' = po) by congruence. subst. exact Hnm.
+  apply (K p t' g' po); auto.
+  - intros Hn. destruct (newObject_name _ _ _ _ _ E Hn) as (po' & Hpo' & Hnm). assert (po' = po) by congruence. subst. exact Hnm.
+  - intros o0 Hn. destruct (newObject_name_old _ _ _ _ _ _ E Hn) as (po' & Hpo' & Hnm). assert (po' = po) by congruence. subst. exact Hnm.
 Qed.
 
 Lemma glive_append2 g o a x : glive (astep g (OpAppend o a)) x -> glive g x.
 Proof. cbn [astep]. unfold glive. rewrite set_kids_len, set_kids_free. tauto. Qed.
 
 (** ---- parseNextObject ---- *)
-Definition xdesc (s s' : pstate) (g' : ghost) (top x : N) : Prop :=
+Definition xdesc (s : pstate) (g : ghost) (s' : pstate) (g' : ghost) (top x : N) : Prop :=
   exists xo, tget (p_tree s') x = Some xo /\ In x (kids g' top) /\ rowis (o_opcode xo) xo /\
     (tget (p_tree s) x = None -> o_name xo = name_zero) /\
+    (forall o0, tget (p_tree s) x = Some o0 -> o_name xo = o_name o0) /\
     (msop xo -> forall op fl af, opInfo (o_infoIndex xo) = Some (op, fl, af) -> simple_from af 0 ->
        hasFlag fl aml_pOpFlagDeferParsing = false ->
-       exists objs, kids g' x = objs /\ Forall2 (fun ty a => akind ty s' g' a) (otys af 0) objs).
+       exists objs, kids g' x = objs /\ Forall2 (fun ty a => akind ty s' g' a) (otys af 0) objs /\ Forall (fun a => ~ glive g a) objs).
 
 Definition newobjs (g : ghost) (s' : pstate) (xs : option N) : Prop :=
   forall i o', tget (p_tree s') i = Some o' -> o_opcode o' <> opFreed -> ~ glive g i -> xs = Some i \/ benign o'.
@@ -902,7 +927,7 @@ Definition T_next (fuel : nat) : Prop := forall s g top rest,
   spec True (parseNextObject fuel) s g (fun res s' g' =>
     Phi s' <= Phi s + 2 /\ (res = ROk -> Phi s' <= Phi s /\ r_offset (p_r s) < r_offset (p_r s')) /\
     Fw NoP (eq top) s g s' g' /\ SSBx s s' /\ p_handle s' = p_handle s /\
-    (res = ROk -> exists xs, newobjs g s' xs /\ forall x, xs = Some x -> ~ glive g x /\ xdesc s s' g' top x)).
+    (res = ROk -> exists xs, newobjs g s' xs /\ forall x, xs = Some x -> ~ glive g x /\ xdesc s g s' g' top x)).
 
 Lemma newobjs_none s g s' : FI s g -> p_tree s' = p_tree s -> newobjs g s' None.
 Proof.
@@ -932,7 +957,7 @@ Proof.
     destruct (valid_op _ _ Hop Hidx Hbad) as (Hnk & Hidx').
     apply wp_bind. eapply new_step3; [exact H1|exact Hnk| |].
     { unfold lp in *. pcbn. lia. }
-    intros p t2 g2 po H2 Hext2 Hfresh2 Hlive2 Hroot2 Hkids2 Hpo Hpop Hpval Hpidx Hl2 Hfw2 Hks2 Hnew2 Hname2.
+    intros p t2 g2 po H2 Hext2 Hfresh2 Hlive2 Hroot2 Hkids2 Hpo Hpop Hpval Hpidx Hl2 Hfw2 Hks2 Hnew2 Hname2 Hname2o.
     set (s2 := with_tree (with_r s r1) t2) in *.
     assert (A2 : at_ s s2 1 1) by (eapply at_new'; [exact A1|exact Hl2|reflexivity]).
     assert (F2 : Fw NoP (eq top) s g s2 g2) by (apply (Fw_new NoP (eq top) s g (with_r s r1) g t2 g2 p F1 (fun x Hx => Hx) Hfresh2 Hfw2 Hks2)).
@@ -995,11 +1020,13 @@ Proof.
         rewrite Ee, Hk4. apply in_or_app. left. apply in_or_app. right. left. reflexivity. }
       split; [unfold rowis; rewrite E1, E2, Eop4, Eii4; exact Hidx'|].
       split; [intros Hn; rewrite E4, Enm4; apply Hname2; exact Hn|].
+      split; [intros o0 Hn; rewrite E4, Enm4; apply Hname2o; exact Hn|].
       intros Hms op fl af Hrow Hsim Hdf.
-      destruct (G9 Hr o4 op fl af Ho4) as (objs & Hko & Hf2); auto.
+      destruct (G9 Hr o4 op fl af Ho4) as (objs & Hko & Hf2 & Hn2); auto.
       { rewrite <- E2. exact Hrow. }
       { unfold msop in Hms. rewrite E1 in Hms. exact Hms. }
-      exists objs. split; [rewrite Hko, Hk4p; reflexivity|exact Hf2].
+      exists objs. split; [rewrite Hko, Hk4p; reflexivity|]. split; [exact Hf2|].
+      eapply Forall_impl; [|exact Hn2]. intros a0 Hn0 Hl0. apply Hn0. apply (ge_live _ _ Hext4). exact Hl0.
   - destruct (Hnok eq_refl) as (Ho1 & Hop). clear Hok Hnok. subst nextOp.
     change (0xffff =? aml_pOpNoop) with false. cbn [negb].
     assert (A1 : at_ s (with_r s r1) 0 0) by (apply at_adv0; [apply at_refl; auto|exact Hadv]).
@@ -1032,11 +1059,14 @@ Qed.
 (** ---- the loops of parseObjectList, carrying an invariant [LI] of the object boundaries ---- *)
 Section Loops.
 Variable LI : pstate -> ghost -> Prop.
+(** a property of the pool that parseNextObject keeps (partial correctness) *)
+Variable TP : T -> Prop.
+Hypothesis TP_next : forall fuel s a s', parseNextObject fuel s = Ok (a, s') -> TP (p_tree s) -> TP (p_tree s').
 Hypothesis LI_next : forall s g top rest s' g',
   FI s g -> LI s g -> p_scopeStack s = top :: rest -> FI s' g' -> gext g g' ->
   Fw NoP (eq top) s g s' g' -> SSBx s s' -> p_handle s' = p_handle s ->
-  (exists xs, newobjs g s' xs /\ forall x, xs = Some x -> ~ glive g x /\ xdesc s s' g' top x) ->
-  (NFt (p_tree s) -> NFt (p_tree s')) ->
+  (exists xs, newobjs g s' xs /\ forall x, xs = Some x -> ~ glive g x /\ xdesc s g s' g' top x) ->
+  (TP (p_tree s) -> TP (p_tree s')) ->
   LI s' g'.
 Hypothesis LI_stable : forall s s' g, LI s g -> p_tree s' = p_tree s -> p_handle s' = p_handle s ->
   (forall y, In y (p_scopeStack s') -> In y (p_scopeStack s)) -> LI s' g.
@@ -1050,8 +1080,8 @@ Proof.
   apply wp_bind, wp_get. destruct (eof (p_r s)).
   { apply wp_ret. exists g. split; auto. split; [apply Ext_refl|]. split; [lia|]. split; [intros _; lia|]. split; [exact Hst|intros _; exact HL]. }
   destruct (p_scopeStack s) as [|top rest] eqn:Est; [contradiction|].
-  apply wp_bind. eapply wp_weaken; [apply (wp_and_pc _ _ _ _ (fun _ s1 => NFt (p_tree s) -> NFt (p_tree s1)) (T_next_all fuel s g top rest H Est Hroom))|auto|].
-  { intros a s1 E. apply (parseNextObject_nfk fuel s a s1 E). }
+  apply wp_bind. eapply wp_weaken; [apply (wp_and_pc _ _ _ _ (fun _ s1 => TP (p_tree s) -> TP (p_tree s1)) (T_next_all fuel s g top rest H Est Hroom))|auto|].
+  { intros a s1 E. apply (TP_next fuel s a s1 E). }
   intros res s1 ((g1 & H1 & E1 & P1 & P2 & F1 & S1 & Hh1 & N1) & Hnf1).
   assert (Hst1 : p_scopeStack s1 <> []).
   { destruct (ex_scopes _ _ _ _ E1) as (e & Es). rewrite Es, Est. intros E. apply app_eq_nil in E. destruct E as (_ & E). discriminate. }
